@@ -253,6 +253,7 @@ def execModel (w : World) (toks : List String) (hint : String) : World × String
   -- to_string into a destination of 2 GiB + 4 KiB: by `to_string_protocol` any sufficient capacity gives the same answer,
   -- so the model runs it with a destination that is just large enough
   | ["tsH"] => withP fun p =>
+      if hint.trimAscii.toString == "skip" then (w, "skip") else     -- the 2 GiB mapping was refused on this machine: the call was not made
       let q := toString' stdFmts p none 0
       let capN := q.2.2.1 + 8
       let r := toString' stdFmts p (some (pattern capN)) capN
